@@ -127,6 +127,8 @@ def auto_justify(site):
         ln, ix = _consts_of(ops[0]), _consts_of(ops[1])
         if ln is not None and ix is not None and all(0 <= i < min(ln) for i in ix):
             return "constant index below the constant length"
+        if ln is not None and min(ln) >= 14 and re.fullmatch(r"P\d+@Val\.type_", ops[1]):
+            return "area node types are 0..13 by construction in the parser (0, 1, heart position + 2 <= 13; C04.TABLES/TREE); the indexed constant table has at least 14 entries"
     return None
 
 
